@@ -89,7 +89,7 @@ func c09() []*Ob {
 						var shardIdx ssa.Value
 						DerivesFrom(Receiver(call), func(v ssa.Value) bool {
 							if ia, ok := v.(*ssa.IndexAddr); ok && shardIdx == nil {
-								if p, isP := ia.X.(*ssa.Parameter); isP && p.Name() == "shards" {
+								if p, isP := ia.X.(*ssa.Parameter); isP && ParamName(p) == "shards" {
 									shardIdx = ia.Index
 									return true
 								}
